@@ -9,7 +9,7 @@ META = {
              'list of the specification; signature = (record length, #objects, sorted payload length classes, '
              'payload kinds); non-trivial when a payload is empty, shorter than 8 bytes or spans several segments'),
     'required_obs': {'quick': ['c16-empty', 'c16-short', 'c16-ends-01', 'c16-multi-segment', 'c16-multi-object',
-                               'c16-str', 'c16-bytearray', 'c16-payload', 'c16-same-named-objects']},
+                               'c16-str', 'c16-bytearray', 'c16-payload', 'c16-same-named-objects', 'c16-identity-change-then-rewrite']},
     'exhaustive_windows': {
         'quick': ['payload lengths 0..16 x name lengths 1..4 (single payload)'],
         'thorough': ['payload lengths 0..40 x name lengths 1..10 (single payload)',
@@ -37,6 +37,9 @@ def cases(tier, seed):
         i += 1
     for k in range(150 if tier == 'quick' else 4000):
         yield {'stratum': 'random', 'index': k, 'kind': 'random'}
+    # write; the no-format objects get other names / origins (or more payloads); write again
+    for k in range(50 if tier == 'quick' else 1200):
+        yield {'stratum': 'identity-change-then-rewrite', 'index': k, 'kind': 'random', 'rewrite': True}
 
 
 def run_case(case):
@@ -45,9 +48,12 @@ def run_case(case):
     obs, sigs, vio = {}, [], []
     evals = 0
 
-    def go(sp, sig, nontrivial):
+    def go(sp, sig, nontrivial, later=None):
         nonlocal evals
         run = harness.execute(sp)
+        if later is not None and run.data is not None:
+            run = harness.rewrite(run, later)
+            obs['c16-identity-change-then-rewrite'] = obs.get('c16-identity-change-then-rewrite', 0) + 1
         evals += 1
         if run.data is None:
             obs['write-raised:%s:%s' % (run.wout[1], run.wout[2][:50])] = obs.get('write-raised', 0) + 1
@@ -102,7 +108,27 @@ def run_case(case):
             kinds.add(as_)
         if nobj > 1 and npay > 1:
             obs['c16-multi-object'] = obs.get('c16-multi-object', 0) + 1
-        go(sp, f'r:{mx}:{nobj}:{sorted(classes)}:{sorted(kinds)}', bool(classes & {'0', '<8', '>cap'}))
+        later = None
+        if case.get('rewrite'):
+            # a second origin to move objects to
+            sp['ops'].insert(1, gen.origin_op('ORIGIN-2', fsn=2, origin_reference=r.choice([5, 130])))
+            for o in sp['ops']:
+                if 'target' in o:
+                    o['target'] += 1
+            for o in sp['ops']:
+                if o['op'] == 'frame':
+                    o['attrs']['channels']['$tuple'] = [{'$ref': c_['$ref'] + 1} for c_ in o['attrs']['channels']['$tuple']]
+            first += 1
+            later = []
+            for j in range(nobj):
+                c_ = r.random()
+                if c_ < 0.5:
+                    later.append({'op': 'setattr', 'target': first + j, 'field': 'name', 'value': f'RENAMED-NF-{j}'})
+                elif c_ < 0.8:
+                    later.append({'op': 'setattr', 'target': first + j, 'field': 'origin_reference', 'value': {'$origin_of': 1}})
+            if r.random() < 0.5:
+                later.append(gen.nf_data_op(first + r.randrange(nobj), gen.payload_bytes(r, r.choice([0, 5, 40]), 99)))
+        go(sp, f'r:{mx}:{nobj}:{sorted(classes)}:{sorted(kinds)}:{bool(later)}', bool(classes & {'0', '<8', '>cap'}) or bool(later), later)
         sample = {'kind': 'random', 'record_length': mx, 'objects': nobj,
                   'payloads': [(o['target'], (o['payload'] if isinstance(o['payload'], str) else o['payload']['$bytes'])[:24])
                                for o in sp['ops'] if o['op'] == 'nf_data'][:6]}
